@@ -33,6 +33,7 @@ type Engine struct {
 	bindings   map[string]*FuncBinding
 	recording  map[string]map[string]string
 	fpCache    map[*ssa.Function]map[*ssa.Alloc]string
+	stableCache map[*ssa.Function]map[string]string
 	mode       string // "first" | "all"
 	contractSource map[string]string // pkg -> "repo" | "mirror"
 	verbose    bool
